@@ -24,13 +24,13 @@ RULE = ('Seeded include trees to depth 4 and fan-out 3 over a virtual file syste
         'simulation (independent VM + resolver): sequence of fetched locations (dot-segment normalised), marker sequence, final globals, and '
         'for failures the kind and the location named in the message ("Include of <loc> failed" / "Included from <loc>"). Non-trivial: depth '
         '>= 2 with a directory or base change between levels and an include issued after a nested include returned. Distinct by file system.')
-ASSUMPTIONS = ['include graphs are acyclic (a file that includes itself recurses until the host stack is exhausted; outside the property)',
+ASSUMPTIONS = ['include cycles are generated only with a terminating guard (an unguarded self-include recurses until the host stack is exhausted; outside the property)',
                'system prefixes end with a slash; locations are compared after dot-segment / normpath normalisation']
 
 _URL = re.compile(r'^[a-z]+:')
 REL_DIRS = ['', 'lib/', 'lib/sub/', 'other/', 'lib/sub/deep/']
 ABS_DIRS = ['/abs/', '/abs/d/']
-URL_DIRS = ['http://h/base/', 'http://h/base/x/', 'http://h/other/', 'https://k/']
+URL_DIRS = ['http://h/base/', 'http://h/base/x/', 'http://h/other/', 'https://k/', 'file:/srv/shared/', 'vfs:/pkg/']      # (a URL is a scheme and a colon - no // needed)
 SYS_PREFIXES = ['sys/', 'http://h/sys/', '/opt/sys/', 'lib/sys/', None]
 
 
@@ -145,9 +145,37 @@ class World:
         self.done.append(loc)
         return loc
 
+    def cyclic_files(self, frm, level):
+        """A file that (directly, or through a second file) includes itself, guarded by a counter: every executed include statement fetches
+        and runs the file again - also when that file is already being included."""
+        r = self.r
+        self.n += 1
+        fid = 'F%d' % self.n
+        d = r.choice({'rel': REL_DIRS, 'abs': ABS_DIRS, 'url': URL_DIRS}[kind_of(frm)])
+        loc = d + 'cyc%d.bare' % self.n
+        cnt = 'cnt' + fid
+        V = lambda n: {'variable': n}  # noqa: E731
+        bump = {'expr': {'name': cnt, 'expr': {'binary': {'op': '+', 'left': {'function': {'name': 'if', 'args': [V(cnt), V(cnt), {'number': 0.0}]}}, 'right': {'number': 1.0}}}}}
+        guard = {'jump': {'label': 'done' + fid, 'expr': {'binary': {'op': '>=', 'left': V(cnt), 'right': {'number': float(r.randint(2, 3))}}}}}
+        if r.random() < 0.5:
+            inner = {'include': {'includes': [{'url': mkref(r, loc, loc) or posixpath.basename(loc)}]}}
+            self.classes.add('self-include-with-guard')
+        else:
+            other = d + 'cyc%db.bare' % self.n
+            self.files[normloc(other)] = ('ok', {'statements': [c08.log_stmt('pong ' + fid), {'include': {'includes': [{'url': mkref(r, other, loc) or posixpath.basename(loc)}]}},
+                                                                 c08.log_stmt('pong end ' + fid)]})
+            inner = {'include': {'includes': [{'url': mkref(r, loc, other) or posixpath.basename(other)}]}}
+            self.classes.add('mutual-include-with-guard')
+        self.files[normloc(loc)] = ('ok', {'statements': [bump, c08.log_stmt('begin ' + fid), guard, inner, {'label': 'done' + fid}, c08.log_stmt('end ' + fid)]})
+        self.depth_seen = max(self.depth_seen, level + 1)
+        ref = mkref(r, frm, loc)
+        return {'url': ref} if ref else None
+
     def make_include(self, frm, depth, level):
         r = self.r
         k = r.random()
+        if k < 0.05 and depth > 0:
+            return self.cyclic_files(frm, level)
         if k < 0.1:
             self.classes.add('missing')
             ref = r.choice(['missing%d.bare' % r.randint(0, 9), '../gone.bare', 'sub/none.bare'])
